@@ -178,6 +178,11 @@ func (p *Program) callGraph() *CallGraph {
 				return
 			}
 			if c.IsInvoke() {
+				// CHA only for interfaces the module declares; an invoke through an external
+				// interface (http.Handler, io.Writer, ...) is a user callback unless an escape edge says otherwise
+				if !p.isModuleInterface(c.Value.Type()) {
+					return
+				}
 				for _, f := range p.implementations(c.Value.Type(), c.Method) {
 					add(Edge{fn, f, i, EdgeInvoke})
 				}
